@@ -28,9 +28,12 @@ THEOREMS = [
     'Pyiga.Props.C06.key_sound', 'Pyiga.Props.C06.cse_sound', 'Pyiga.Props.C06.inline_sound',
     'Pyiga.Props.C06.vec_subst_sound',
     'Pyiga.Props.C06.schedule_sound', 'Pyiga.Props.C06.defBeforeUse_sound', 'Pyiga.Props.C06.slp_perm_sound',
-    'Pyiga.Props.C06.phys_to_para_partial', 'Pyiga.Props.C06.chain_rule_first_order', 'Pyiga.Props.C06.chain_rule_second_order',
+    'Pyiga.Props.C06.phys_to_para_partial', 'Pyiga.Props.C06.phys_to_para_first_order', 'Pyiga.Props.C06.phys_to_para_second_order',
+    'Pyiga.Props.C06.geo_hess_trf_value', 'Pyiga.Props.C06.phys_to_para_spacetime', 'Pyiga.Props.C06.spacetime_time_derivs',
+    'Pyiga.Props.C06.input_derivs_sound', 'Pyiga.Props.C06.sym_index_packing', 'Pyiga.Props.C06.measures_sound',
+    'Pyiga.Props.C06.jacinv_right_inverse', 'Pyiga.Props.C06.dx_expansion_sound', 'Pyiga.Props.C06.chain_rule_first_order', 'Pyiga.Props.C06.chain_rule_second_order',
 ]
-MODULES = ['Pyiga.Model.VForm', 'Pyiga.Model.SLP', 'Pyiga.Proofs.VForm', 'Pyiga.Proofs.VFormAlg', 'Pyiga.Proofs.VFormKey', 'Pyiga.Proofs.VFormPhys', 'Pyiga.Model.VFormPhys', 'Pyiga.Proofs.SLP', 'Pyiga.Props.C06']
+MODULES = ['Pyiga.Model.VForm', 'Pyiga.Model.SLP', 'Pyiga.Proofs.VForm', 'Pyiga.Proofs.VFormAlg', 'Pyiga.Proofs.VFormKey', 'Pyiga.Proofs.VFormPhys', 'Pyiga.Proofs.VFormPhys2', 'Pyiga.Model.VFormPhys', 'Pyiga.Proofs.SLP', 'Pyiga.Props.C06']
 
 
 # ----------------------------------------------------------------------------- helpers
@@ -675,6 +678,111 @@ def phys1_stream(ctx, add):
                 ctx.count('synth:phys1')
 
 
+def phys_streams(ctx, add):
+    """every branch of replace_physical_derivs (orders 1, 2, space-time), _geo_hess_trf, insert_input_field_derivs and the
+    predefined measure / normal variables, all dims: exact structural diff against Model/VFormPhys.lean"""
+    import itertools
+    from pyiga import vform as V
+
+    def cnt():
+        ctx.count('synth:phys-branches')
+    for dim in (1, 2, 3):
+        # ---- predefined variables
+        vf = V.VForm(dim)
+        vf.basisfuns()
+        for name, req in (('W', 'predef W %d' % dim), ('Jac', 'predef Jac %d %d' % (dim, dim)), ('GaussWeight', 'predef GaussWeight %d' % dim),
+                          ('JacInv', 'predef JacInv %d' % dim)):
+            def f(name=name, vf=vf):
+                getattr(vf, name)
+                return L.ser(vf.vars[name].expr)
+            add(req, guarded(f), ('predef', name, dim)); cnt()
+        for kind in ('surf', 'bnd'):
+            if (kind == 'surf' and dim == 3) or (kind == 'bnd' and dim == 1):
+                continue
+            vs = V.VForm(dim, geo_dim=dim + 1) if kind == 'surf' else V.VForm(dim, boundary=True)
+            vs.basisfuns()
+            rows, cols = (dim + 1, dim) if kind == 'surf' else (dim, dim - 1)
+            for name in ('SW', 'normal'):
+                def f(name=name, vs=vs):
+                    getattr(vs, name)
+                    return L.ser(vs.vars[name].expr)
+                add('predef %s %d BJac %d %d' % (name, dim, rows, cols), guarded(f), ('predef', name, dim, kind)); cnt()
+            if kind == 'surf':
+                add('predef Jac %d %d' % (dim, dim + 1), guarded(lambda vs=vs: L.ser(vs.vars['Jac'].expr)), ('predef', 'Jac', dim, kind)); cnt()
+            else:
+                add('predef BJac %d' % dim, guarded(lambda vs=vs: L.ser(vs.vars['BJac'].expr)), ('predef', 'BJac', dim, kind)); cnt()
+        # ---- physical derivatives of basis functions and of parametric input fields, orders 1 and 2
+        for order in (1, 2):
+            for D in itertools.product(range(order + 1), repeat=dim):
+                if sum(D) != order:
+                    continue
+                idx = [k for k, n in enumerate(D) for _ in range(n)]
+                for atom in ('u', 'v', 'f', 'w1'):
+                    vf = V.VForm(dim)
+                    u, v = vf.basisfuns()
+                    fi = vf.input('f'); wi = vf.input('w', shape=(dim,))
+                    if atom in ('u', 'v'):
+                        bf = vf.basis_funs[0 if atom == 'u' else 1]
+                        e = V.PartialDerivExpr(bf, D, physical=True)
+                        tok = 'B ' + L.ser_bf(bf)
+                    else:
+                        var = vf.vars['f_a'] if atom == 'f' else vf.vars['w_a']
+                        I = () if atom == 'f' else (dim - 1,)
+                        e = V.VarRefExpr(var, I, D, parametric=False)
+                        tok = 'V %s %s' % (var.name, plist(I))
+                    if order == 1:
+                        add('phys1g %d %s %d' % (dim, tok, idx[0]), guarded(lambda: L.ser(vf.replace_physical_derivs(e))), ('phys1g', dim, atom, D)); cnt()
+                    else:
+                        res = guarded(lambda: L.ser(vf.replace_physical_derivs(e)))
+                        add('phys2g %d %s %d %d' % (dim, tok, idx[0], idx[1]), res, ('phys2g', dim, atom, D)); cnt()
+                        for k in range(dim):
+                            nm = '_geo_hess_trf_%d_%d_%d' % (k, idx[0], idx[1])
+                            add('ghtdef %d %d %d %d' % (dim, k, idx[0], idx[1]),
+                                guarded(lambda nm=nm: nm + ' ' + L.ser(vf.vars[nm].expr)), ('ghtdef', dim, k, idx)); cnt()
+                    if atom == 'u':
+                        add('physD %d %s %s' % (dim, L.ser_bf(bf), plist(D)), guarded(lambda: L.ser(vf.replace_physical_derivs(
+                            V.PartialDerivExpr(bf, D, physical=True)))), ('physD', dim, D)); cnt()
+        vf = V.VForm(dim); u, v = vf.basisfuns()
+        D3 = (3,) + (0,) * (dim - 1)
+        add('physD %d %s %s' % (dim, L.ser_bf(vf.basis_funs[0]), plist(D3)),
+            guarded(lambda: L.ser(vf.replace_physical_derivs(V.PartialDerivExpr(vf.basis_funs[0], D3, physical=True)))), ('physD', dim, D3)); cnt()
+        # ---- space-time branch
+        if dim >= 2:
+            for D in itertools.product(range(3), repeat=dim):
+                if sum(D) == 0 or sum(D[:-1]) > 2:
+                    continue
+                vt = V.VForm(dim, spacetime=True)
+                u, v = vt.basisfuns()
+                bf = vt.basis_funs[0]
+                def f(vt=vt, bf=bf, D=D):
+                    r = vt.replace_physical_derivs(V.PartialDerivExpr(bf, D, physical=True))
+                    # the variables created by pderiv_as_var must be the parametric derivatives they are named after
+                    for nm, var in vt.vars.items():
+                        if nm.startswith('_du_'):
+                            digits = tuple(int(c) for c in nm[4:])
+                            if L.ser(var.expr) != 'P %s %s 0' % (L.ser_bf(bf), plist(digits)):
+                                return 'bad-pderiv-var ' + nm
+                    return L.ser(r)
+                add('physST %d %s %s' % (dim, L.ser_bf(bf), plist(D)), guarded(f), ('physST', dim, D)); cnt()
+        # ---- insert_input_field_derivs
+        for order in (1, 2):
+            for D in itertools.product(range(order + 1), repeat=dim):
+                if sum(D) != order:
+                    continue
+                for atom in ('f', 'w', 'g'):
+                    vf = V.VForm(dim); vf.basisfuns()
+                    inp = vf.input('f') if atom == 'f' else vf.input('w', shape=(2,)) if atom == 'w' else vf.input('g', physical=True)
+                    var = vf.vars[atom + '_a']
+                    I = (1,) if atom == 'w' else ()
+                    e = V.VarRefExpr(var, I, D, parametric=(atom != 'g'))
+                    add('inderiv %d %s %s %s' % (dim, atom, plist(I), plist(D)), guarded(lambda: L.ser(vf.insert_input_field_derivs(e))),
+                        ('inderiv', dim, atom, D)); cnt()
+    for n in range(1, 5):
+        for i in range(n):
+            for j in range(n):
+                add('symseq %d %d %d' % (n, i, j), str(V.sym_index_to_seq(n, i, j)), ('symseq', n, i, j)); cnt()
+
+
 # ----------------------------------------------------------------------------- model-free search
 def dual_eval(w, e, k, par, store=None):
     """(value, derivative wrt direction k [parametric or physical]) by dual numbers over Fractions"""
@@ -919,6 +1027,7 @@ def run(ctx):
     t0 = _t.time()
     synth_stream(ctx, add, nsynth)
     phys1_stream(ctx, add)
+    phys_streams(ctx, add)
     ctx.extra['t_synth'] = round(_t.time() - t0, 1); t0 = _t.time()
 
     import multiprocessing as mp
